@@ -45,9 +45,22 @@ var shardKeys = func() [2]string {
 func kinesisReaderBody(c *mc.Ctx) {
 	depth := c.Param.(int)
 	fake, handler := kinesisfake.VerifNewHandler()
-	if c.Choose(2) == 1 {
+	// GetRecords limit and a shard that already holds a dozen records (sequence numbers with one
+	// and with two digits: positions are decimal strings of growing length)
+	start := c.Choose(4)
+	prefill := 0
+	switch start {
+	case 1:
 		fake.SetGetRecordsLimit(1)
 		c.Op("[GetRecords returns one record at a time]")
+	case 2:
+		fake.SetGetRecordsLimit(8)
+		prefill = 12
+		c.Op("[GetRecords returns eight records at a time; shard 0 already holds 12 records]")
+	case 3:
+		fake.SetGetRecordsLimit(4)
+		prefill = 12
+		c.Op("[GetRecords returns four records at a time; shard 0 already holds 12 records]")
 	}
 	client := awskinesis.New(awskinesis.Options{EndpointResolver: awskinesis.EndpointResolverFromURL("http://kinesis.invalid"), Region: "us-east-2",
 		Credentials: aws.AnonymousCredentials{}, Retryer: aws.NopRetryer{}, HTTPClient: &http.Client{Transport: handlerTransport{handler}}})
@@ -70,6 +83,12 @@ func kinesisReaderBody(c *mc.Ctx) {
 	}
 	reader := newReader(nil)
 	put := [2]int{} // records put per shard
+	for ; put[0] < prefill; put[0]++ {
+		if _, err := client.PutRecords(ctx, &awskinesis.PutRecordsInput{StreamARN: aws.String(streamARN),
+			Records: []kinesistypes.PutRecordsRequestEntry{{Data: []byte(fmt.Sprintf("0#%d", put[0])), PartitionKey: aws.String(shardKeys[0])}}}); err != nil {
+			panic(fmt.Sprintf("mc: harness: put: %v", err))
+		}
+	}
 	pos := [2]int{} // records of the shard emitted in the current lineage
 	restores, afterRestoreReads := 0, 0
 	for step := 0; step < depth; step++ {
